@@ -186,6 +186,15 @@ def cov_case(draw):
     elem = st.one_of(gen.floats(-100.0, 100.0), st.integers(-5, 5).map(float))
     c = draw(gen.sampled_case(elem=elem, min_samples=2, max_samples=9, max_bins=5))
     c["cls"] = draw(st.sampled_from(["CorrData", "RedshiftData", "HistData"]))
+    if draw(st.integers(0, 3)) == 3:
+        # scatter that is tiny compared with the values (near-identical patches, or a large common
+        # offset): value = offset + k * step with small integers k, all exactly representable
+        offset, step = draw(st.sampled_from([(2.0**14, 2.0**-12), (2.0**20, 2.0**-10), (-(2.0**17), 2.0**-9), (3.0 * 2.0**10, 2.0**-16)]))
+        arr = np.array(c["samples"], float)
+        ks = np.array(draw(st.lists(st.integers(-8, 8), min_size=arr.size, max_size=arr.size)), float).reshape(arr.shape)
+        c["samples"] = (offset + ks * step).tolist()
+        c["data"] = (offset + 0.0 * np.array(c["data"], float)).tolist()
+        c["offset_scatter"] = [offset, step]
     return c
 
 
@@ -202,6 +211,12 @@ def run_cov(case):
         return ck.results()
     ref = osx.jackknife_cov(samples)
     scale = max(1e-300, float(np.abs(samples).max()) ** 2) * n
+    if case.get("offset_scatter"):
+        # deviations from the mean are small integers times a power of two: the reference is
+        # (nearly) exact and the tolerance refers to the scatter, not to the offset
+        ck.cls("tiny-scatter-on-large-offset")
+        ref = osx.jackknife_cov(samples - samples.mean(axis=0, keepdims=True))
+        scale = float(np.abs(samples - samples.mean(axis=0, keepdims=True)).max() ** 2) * n * 1e6
     ck.expect(cov.shape == (nb, nb), "covariance:shape", str(cov.shape))
     if cov.shape == (nb, nb):
         ck.expect(np.allclose(cov, ref, rtol=1e-9, atol=1e-12 * scale), "covariance:not-delete-one-jackknife", lambda: f"{cov} vs {ref}")
